@@ -308,6 +308,16 @@ class Extractor {
         o << "}";
     }
 
+    // nonnull on any (re)declaration of the function or of one of its parameters: the compiler may then delete NULL tests in the body
+    static bool hasNonNull(const FunctionDecl *FD) {
+        for (const FunctionDecl *R : FD->redecls()) {
+            if (R->hasAttr<NonNullAttr>() || R->hasAttr<ReturnsNonNullAttr>()) return true;
+            for (unsigned i = 0; i < R->getNumParams(); i++)
+                if (R->getParamDecl(i)->hasAttr<NonNullAttr>()) return true;
+        }
+        return false;
+    }
+
     void function(const FunctionDecl *FD) {
         const Stmt *Body = FD->getBody();
         CFG::BuildOptions BO;
@@ -325,6 +335,7 @@ class Extractor {
            << ",\"public\":" << (pub ? "true" : "false") << ",\"weak\":" << (FD->hasAttr<WeakAttr>() ? "true" : "false")
            << ",\"ctor\":" << ((FD->hasAttr<ConstructorAttr>() || FD->hasAttr<DestructorAttr>()) ? "true" : "false")
            << ",\"variadic\":" << (FD->isVariadic() ? "true" : "false")
+           << ",\"nonnull\":" << (hasNonNull(FD) ? "true" : "false")
            << ",\"ret_t\":" << jstr(tyS(FD->getReturnType())) << ",\"params\":[";
         for (unsigned i = 0; i < FD->getNumParams(); i++) {
             if (i) os << ",";
@@ -486,6 +497,27 @@ class Extractor {
             if (!first) os << ",";
             first = false;
             os << jstr(ED->getNameAsString()) << ":" << llvm::toString(ED->getInitVal(), 10);
+        }
+        os << "},\n\"enum_groups\":{";
+        {
+            std::map<std::string, std::vector<std::string>> groups;
+            for (auto *ED : v.enums) {
+                std::string g = "?";
+                if (auto *EN = dyn_cast<EnumDecl>(ED->getDeclContext())) {
+                    g = EN->getNameAsString();
+                    if (g.empty()) if (auto *TD = EN->getTypedefNameForAnonDecl()) g = TD->getNameAsString();
+                    if (g.empty()) g = "anon@" + std::to_string(lineOf(EN->getLocation()));
+                }
+                groups[g].push_back(ED->getNameAsString());
+            }
+            bool f2 = true;
+            for (auto &kv : groups) {
+                if (!f2) os << ",";
+                f2 = false;
+                os << jstr(kv.first) << ":[";
+                for (size_t i = 0; i < kv.second.size(); i++) { if (i) os << ","; os << jstr(kv.second[i]); }
+                os << "]";
+            }
         }
         os << "},\n\"max_align\":" << Ctx.getTargetInfo().getNewAlign() / 8 << ",\n\"globals\":[";
         first = true;
